@@ -110,9 +110,14 @@ func Register[T any](el *EventLoop, callback EventHandler[T], opts ...HandlerOpt
 		el.handlers[t][i] = h
 	}
 
+	unregistered := false
 	return func() {
 		el.mut.Lock()
 		defer el.mut.Unlock()
+		if unregistered {
+			return
+		}
+		unregistered = true
 		el.handlers[t][i].callback = nil
 	}
 }
